@@ -118,6 +118,9 @@ for f in ("fp32", "fp61"):
 K("c08_boolean_field", "C08", "boolean", "ff::boolean", ["Boolean: Add Sub Mul Neg Not *Assign"], "complete", "GF(2) tables and axioms, exhaustive", min_covers=2)
 K("c08_boolean_conversions", "C08", "boolean", "ff::boolean", ["Boolean::truncate_from", "Boolean::try_from", "Boolean::from_random_u128"], "complete",
   "low bit / exactly 0 and 1", min_covers=2)
+for w_ in ("ba3", "ba20", "ba8"):
+    K("c08_%s_not%s" % (w_, "" if w_ == "ba8" else "_padding"), "C08", "boolean_array", "ff::boolean_array", ["<%s as Not>::not" % w_.upper()], "complete-for-instance",
+      "bitwise complement stays inside BITS bits (padding bits zero), all values", timeout=900)
 K("c08_dzkp_constants", "C08", "dzkp_field", "protocol::context::dzkp_field", ["<Fp61BitPrime as DZKPBaseField>::{INVERSE_OF_TWO,MINUS_ONE_HALF,MINUS_TWO}"], "complete",
   "2*INVERSE_OF_TWO = 1, MINUS_ONE_HALF + INVERSE_OF_TWO = 0, MINUS_TWO + 2 = 0 (mod P), all canonical")
 PY("c08_math_facts", "C08", "c08_math_facts", ["field_impl! PRIME literals", "galois_field POLYNOMIAL literals"],
@@ -149,6 +152,9 @@ K("c09_prss_index128_roundtrip", "C09", "prss", "protocol::prss", ["PrssIndex128
   "injective, inverse, Err iff offset > 2^11", harness="c06_prss_index128_injective", min_covers=3)
 K("c09_prss_index128_try_from", "C09", "prss", "protocol::prss", ["TryFrom<u128> for PrssIndex128"], "complete",
   "Ok iff < 2^64 and offset <= 2^11; decode(encode) identity", harness="c06_prss_index128_try_from", min_covers=2)
+for w_, b_ in (("ba3", 3), ("ba8", 8), ("ba20", 20), ("ba32", 32), ("ba64", 64)):
+    K("c09_%s_truncate_le" % w_, "C09", "boolean_array", "ff::boolean_array", ["<%s as U128Conversions>::truncate_from" % w_.upper(), "%s::as_raw_slice" % w_.upper()], "complete-for-instance",
+      "storage bytes = low %d bits of the integer, little endian, padding bits zero" % b_, timeout=900, tier=("quick" if b_ <= 20 else "thorough"))
 K("c09_boolean_deserialize", "C09", "boolean", "ff::boolean", ["<Boolean as Serializable>::deserialize"], "complete", "Ok iff byte <= 1, all 256 bytes", min_covers=2)
 K("c09_event_type", "C09", "report_hybrid", "report::hybrid", ["HybridEventType::try_from"], "complete", "Ok iff byte in {0,1}", harness="c10_event_type_try_from", min_covers=2)
 for f, T, m in _FIELDS:
@@ -271,7 +277,8 @@ PROPS["C13"] = dict(
     level="proof",
     decided=["capacity / read-size alignment rule of SendChannelConfig::new_with for every power-of-two active, record size and configured read size (Verus): "
              "total_capacity = active*record_size, record_size | read_size | total_capacity, 0 < read_size <= capacity, read_size = record_size when indeterminate; the function's own asserts cannot fire",
-             "non_zero_prev_power_of_two and NonZeroU32PowerOfTwo::try_from for all usize"],
+             "non_zero_prev_power_of_two and NonZeroU32PowerOfTwo::try_from for all usize",
+             "TotalRecords::is_last: the channel-close predicate is true exactly for record n - 1 of a declared count n"],
     undecided=["delivery to the matching receive, ordering, closure at the declared count, deadlock freedom itself (async, multi-task)"],
     trusted_base=[], assumptions=[],
     explanation="scoped to the arithmetic premise of 'no deadlock while <= window records are outstanding' (ipa#1300)",
@@ -281,6 +288,8 @@ V("c13_send_config", "C13", "send_config", ["SendChannelConfig::new_with"], "com
 K("c13_prev_power_of_two", "C13", "power_of_two", "utils::power_of_two", ["non_zero_prev_power_of_two"], "complete", "power of two, r <= max(1,t) < 2r", min_covers=3)
 K("c13_nonzero_pow2_try_from", "C13", "power_of_two", "utils::power_of_two", ["NonZeroU32PowerOfTwo::try_from", "get", "to_non_zero_usize"], "complete",
   "accepts exactly powers of two in 1..u32::MAX", min_covers=2)
+K("c13_total_records_is_last", "C13", "send", "helpers::gateway::send", ["TotalRecords::is_last", "TotalRecords::specified", "TotalRecords::count"], "complete",
+  "is_last(r) <=> count specified as n and r = n - 1 (the close-at-declared-count predicate of GatewaySender::send)", min_covers=2)
 for rec in (1, 2, 3, 4, 8, 12, 16, 24, 32, 96, 4097):
     K("c13_send_config_grid_rec%d" % rec, "C13", "send", "helpers::gateway::send", ["SendChannelConfig::new_with (unsubstituted)"], "bounded",
       "same rule on the unsubstituted function", bound="active = 2^k, k <= 16; record_size = %d; read_size_cfg <= 2^20" % rec,
@@ -303,6 +312,7 @@ K("c11_unique_tag_copy", "C11", "report_hybrid", "report::hybrid", ["UniqueTag::
 PROPS["C10"] = dict(
     level="other",
     decided=["BOUNDED totality: report and info parsers return (never panic) on every byte string of the stated lengths, incl. empty and truncated records",
+             "BOUNDED: the HPKE info string of a conversion report binds every metadata byte exactly (to_enc_bytes layout)",
              "event type byte accepted iff 0/1"],
     undecided=["AEAD integrity (any bit flip fails decryption): property of the external hpke / aes-gcm crates", "decrypt (GenericArray::from_slice aborts CBMC)",
                "LengthDelimitedStream framing", "lengths other than the stated boundary lengths (HybridConversionInfo: only len 0 and 1 close; longer inputs exhaust memory / time in CBMC post-processing of core::str UTF-8 validation)"],
@@ -318,6 +328,9 @@ K("c10_report_from_bytes_boundary_imp", "C10", "report_hybrid", "report::hybrid"
 K("c10_report_from_bytes_boundary_conv", "C10", "report_hybrid", "report::hybrid", ["EncryptedHybridReport::from_bytes", "EncryptedHybridConversionReport::from_bytes"], "bounded",
   "same for the conversion variant", bound="the two boundary lengths", timeout=900)
 K("c10_impression_info_total", "C10", "report_hybrid_info", "report::hybrid_info", ["HybridImpressionInfo::from_bytes"], "complete", "total on len 0..=2; Err iff empty", min_covers=2)
+K("c10_conversion_info_enc_bytes_layout", "C10", "report_hybrid_info", "report::hybrid_info", ["HybridConversionInfo::to_enc_bytes"], "bounded",
+  "HPKE info = DOMAIN ++ HELPER_ORIGIN ++ site bytes unchanged ++ key_id ++ timestamp ++ epsilon ++ sensitivity (BE): every metadata bit is bound",
+  bound="site domain of 0..=3 ASCII bytes", min_covers=2, timeout=2400, tier="thorough")
 for n in (0, 1):
     K("c10_conversion_info_total_len%d" % n, "C10", "report_hybrid_info", "report::hybrid_info", ["HybridConversionInfo::from_bytes"], "bounded",
       "returns (never panics); Ok only for NUL-delimited records with a 25-byte tail", bound="len = %d, contents symbolic" % n, timeout=1500,
@@ -326,7 +339,7 @@ for n in (0, 1):
 # ============================================================================ C15
 PROPS["C15"] = dict(
     level="other",
-    decided=["BOUNDED (n <= 2 futures, window <= 2): results in input order, each exactly once; end only after all; window kept full while input remains; every in-flight future polled on each call; completed futures never polled again"],
+    decided=["BOUNDED (n <= 2 futures, window <= 2, complete runs; n = 3, window 3, two calls): results in input order, each exactly once; end only after all; window kept full while input remains; every in-flight future polled on each call; completed futures never polled again"],
     undecided=["larger windows / longer inputs (n = 3, w = 2 exhausts 60 GB of memory; n = 2, w = 1 exhausts the 26 GB cap)", "seq_try_join_all early stop", "multi-threaded variant (unsafe, async-scoped)", "validated_seq_join", "parallel_join (futures crate)"],
     trusted_base=[], assumptions=["kani::stub(periodic_memory_report) = no-op (reaches tracing => kani-compiler ICE)"],
     explanation="bounded symbolic exploration of every completion order of the real SequentialFutures::poll_next within the stated bounds; not a proof for all n, w",
@@ -334,6 +347,10 @@ PROPS["C15"] = dict(
 for n_, w_, t_ in ((1, 1, "quick"), (2, 2, "quick")):
     K("c15_seq_join_n%d_w%d" % (n_, w_), "C15", "seq_join", "seq_join::local", ["SequentialFutures::poll_next", "SequentialFutures::new", "ActiveItem::{check_ready,take}"], "bounded",
       "in-order, exactly-once, window full, all polled", bound="n = %d, w = %d, polls <= %d" % (n_, w_, 3 if (n_, w_) == (2, 1) else n_ + 2), min_covers=2, timeout=1800, tier=t_, replay="none")
+
+K("c15_seq_join_n3_w3_two_polls", "C15", "seq_join", "seq_join::local", ["SequentialFutures::poll_next"], "bounded",
+  "a future that resolved out of order behind a blocked front does not stop the futures behind it from being polled",
+  bound="n = 3, w = 3, 2 calls of poll_next", min_covers=2, timeout=900, replay="none")
 
 # ============================================================================ C17
 PROPS["C17"] = dict(
